@@ -159,11 +159,16 @@ def check(ctx: Ctx) -> None:
         ok = isinstance(v, SNew) and v.cls_name == "HTMLDependency"
         nm = v.kwargs.get("name") if ok else None
         frs = list(nm.frags) if isinstance(nm, SStr) else []
-        good = len(frs) == 2 and frs[0].kind == "LIT" and frs[1].kind == "OP" and frs[1].a == ("call", "hash_deterministic")
+        # constant text around exactly one hash_deterministic(<markup>[, constants]) call
+        hs = [f_ for f_ in frs if f_.kind == "OP" and f_.a == ("call", "hash_deterministic")]
+        good = len(hs) == 1 and all(f_.kind == "LIT" for f_ in frs if f_ is not hs[0])
         src = None
         if good:
-            args = (frs[1].b or {}).get("args", [])
+            args = (hs[0].b or {}).get("args", [])
             src = args[0] if args else None
+            rest = list(args[1:]) + list(((hs[0].b or {}).get("kwargs") or {}).values())
+            good = all(r_ is None or isinstance(r_, (str, int, bool)) for r_ in rest)
+        if good:
             c = src.frags[0] if isinstance(src, SStr) and len(src.frags) == 1 and src.frags[0].kind == "OP" else None
             good = c is not None and c.a == ("call", "TagList.get_html_string") and isinstance(c.b.get("recv"), SNew) and c.b["recv"] is v.kwargs.get("head")
         ctx.check(bool(good) and not extra, "C18.name", "head_content's name = constant prefix + hash_deterministic(rendered markup of the same payload)", where,
